@@ -345,13 +345,29 @@ pub fn worker<P: Property>(tier: Tier, seed: u64, shard: u32, of: u32, out_path:
             stats.borrow_mut().out.infra_error = Some(e);
         } else if let Err(err) = result {
             match err {
-                TestError::Fail(_, minimal) => {
+                TestError::Fail(reason, minimal) => {
                     // Re-run the minimal case to get its signature.
                     let mut ctx = Ctx::new(P::ID, &known, tier);
                     run_case::<P>(&minimal, &mut ctx);
-                    let failure = ctx.failure.unwrap_or(Failure { sig: format!("{}:unstable", P::ID), msg: "shrunk case no longer fails (flaky oracle?)".into() });
-                    let replay = write_replay::<P>(&minimal, &failure);
-                    stats.borrow_mut().out.violation = Some(ShardViolation { sig: failure.sig, msg: failure.msg, replay });
+                    if ctx.failure.is_none() {
+                        // Once more: a failure that does not reproduce twice in
+                        // a row from its own shrunk input is not evidence about
+                        // the code, it is a non-deterministic oracle.
+                        ctx = Ctx::new(P::ID, &known, tier);
+                        run_case::<P>(&minimal, &mut ctx);
+                    }
+                    match ctx.failure {
+                        Some(failure) => {
+                            let replay = write_replay::<P>(&minimal, &failure);
+                            stats.borrow_mut().out.violation = Some(ShardViolation { sig: failure.sig, msg: failure.msg, replay });
+                        }
+                        None => {
+                            // Inconclusive, never a violation.
+                            let failure = Failure { sig: format!("{}:unstable", P::ID), msg: format!("the shrunk case no longer fails when run again twice (last failure while shrinking: {reason})") };
+                            let replay = write_replay::<P>(&minimal, &failure);
+                            stats.borrow_mut().out.infra_error = Some(format!("non-reproducible failure ({}); shrunk input kept at {replay}", failure.msg));
+                        }
+                    }
                 }
                 TestError::Abort(reason) => {
                     stats.borrow_mut().out.infra_error = Some(format!("proptest aborted: {reason}"));
